@@ -16,10 +16,10 @@ BYTES = ("list", ("word", 8))
 CFG = GlueCfg(
     structs={
         "FixedBuffer": dict(lean="FixedBuffer", file=CU, generics=["N"]),
-        "eng256::Engine": dict(lean="Sha2.Eng256.Engine", file=E256, rust="Engine"),
-        "eng512::Engine": dict(lean="Sha2.Eng512.Engine", file=E512, rust="Engine"),
-        "Engine256": dict(lean="Sha2.Engine256", file=MOD),
-        "Engine512": dict(lean="Sha2.Engine512", file=MOD),
+        "eng256::Engine": dict(lean="Impl.Sha2.Eng256.Engine", file=E256, rust="Engine"),
+        "eng512::Engine": dict(lean="Impl.Sha2.Eng512.Engine", file=E512, rust="Engine"),
+        "Engine256": dict(lean="Impl.Sha2.Engine256", file=MOD),
+        "Engine512": dict(lean="Impl.Sha2.Engine512", file=MOD),
     },
     aliases={(E256, "Engine"): "eng256::Engine", (E512, "Engine"): "eng512::Engine"},
     # `[u32; STATE_LEN]` / `[u64; STATE_LEN]` (STATE_LEN = 8) are the record `W8` of the hand models
@@ -28,11 +28,19 @@ CFG = GlueCfg(
     nat_fields={"Engine256.processed_bytes", "Engine512.processed_bytes"},
 )
 
+# the six `digest!` invocations of sha2/mod.rs: (family, unit struct, context struct, output fn, bits, IV constant)
+DIGESTS = [(512, "Sha512", "Context512", 512, "H512"), (512, "Sha384", "Context384", 384, "H384"),
+           (512, "Sha512Trunc256", "Context512_256", 256, "H512_TRUNC_256"), (512, "Sha512Trunc224", "Context512_224", 224, "H512_TRUNC_224"),
+           (256, "Sha256", "Context256", 256, "H256"), (256, "Sha224", "Context224", 224, "H224")]
+for fam, alg, ctx, bits, iv in DIGESTS:
+    CFG.structs[ctx] = dict(lean=f"Impl.Sha2.Ctx{fam}", file=MOD, macro="digest", macro_args=rf"{fam}\s+{alg}\s*,")
+    CFG.consts[iv] = f"Impl.Sha2.{iv}"
+
 FB = dict(file=CU, scope=r"impl<const N: usize> FixedBuffer<N>", impl="FixedBuffer", impl_generics=["N"])
 EN256 = dict(file=E256, scope=r"impl Engine \{", impl="eng256::Engine",
-             externs={(None, "digest_block"): Extern("Sha2.Impl256.digest_block {0} {1}", [("mut", ("custom", "[u32;STATE_LEN]")), ("val", BYTES)], fallible=True)})
+             externs={(None, "digest_block"): Extern("Impl.Sha2.Impl256.digest_block {0} {1}", [("mut", ("custom", "[u32;STATE_LEN]")), ("val", BYTES)], fallible=True)})
 EN512 = dict(file=E512, scope=r"impl Engine \{", impl="eng512::Engine",
-             externs={(None, "digest_block"): Extern("Sha2.Impl512.digest_block {0} {1}", [("mut", ("custom", "[u64;STATE_LEN]")), ("val", BYTES)], fallible=True)})
+             externs={(None, "digest_block"): Extern("Impl.Sha2.Impl512.digest_block {0} {1}", [("mut", ("custom", "[u64;STATE_LEN]")), ("val", BYTES)], fallible=True)})
 M256 = dict(file=MOD, scope=r"impl Engine256 \{", impl="Engine256")
 M512 = dict(file=MOD, scope=r"impl Engine512 \{", impl="Engine512")
 
@@ -47,7 +55,7 @@ def RD(name):
 
 KERNELS = [
     # ---- cryptoutil.rs
-    GStruct(CFG, "FixedBuffer"),
+    GStruct(CFG, "FixedBuffer", lean_name="FixedBuffer.mk_src"),
     GK(CFG, file=CU, fn="zero", lean_name="zero_src", doc="`cryptoutil::zero`"),
     GK(CFG, fn="new", lean_name="FixedBuffer.new_src", doc="`FixedBuffer::new`", **FB),
     GK(CFG, fn="input", lean_name="FixedBuffer.input_src", doc="`FixedBuffer::input`", **FB),
@@ -64,20 +72,20 @@ KERNELS = [
     RD("read_u64v_be"), RD("read_u64v_le"), RD("read_u32v_be"), RD("read_u32v_le"),
     GK(CFG, file=CU, fn="read_u32_le", lean_name="read_u32_le_src", doc="`cryptoutil::read_u32_le`"),
     # ---- sha2/eng256.rs
-    GStruct(CFG, "eng256::Engine"),
+    GStruct(CFG, "eng256::Engine", lean_name="Eng256.Engine.mk_src"),
     GK(CFG, fn="new", lean_name="Eng256.Engine.new_src", doc="`eng256::Engine::new`", **EN256),
     GK(CFG, fn="reset", lean_name="Eng256.Engine.reset_src", doc="`eng256::Engine::reset`", **EN256),
     GK(CFG, fn="blocks", lean_name="Eng256.Engine.blocks_src", doc="`eng256::Engine::blocks`", **EN256),
     GK(CFG, fn="output_224bits_at", lean_name="Eng256.Engine.output_224bits_at_src", doc="`eng256::Engine::output_224bits_at`", **EN256),
     GK(CFG, fn="output_256bits_at", lean_name="Eng256.Engine.output_256bits_at_src", doc="`eng256::Engine::output_256bits_at`", **EN256),
     # ---- sha2/mod.rs: Engine256
-    GStruct(CFG, "Engine256"),
+    GStruct(CFG, "Engine256", lean_name="Engine256.mk_src"),
     GK(CFG, fn="new", lean_name="Engine256.new_src", doc="`Engine256::new`", **M256),
     GK(CFG, fn="reset", lean_name="Engine256.reset_src", doc="`Engine256::reset`", **M256),
     GK(CFG, fn="input", lean_name="Engine256.input_src", doc="`Engine256::input`", **M256),
     GK(CFG, fn="finish", lean_name="Engine256.finish_src", doc="`Engine256::finish`", **M256),
     # ---- sha2/eng512.rs
-    GStruct(CFG, "eng512::Engine"),
+    GStruct(CFG, "eng512::Engine", lean_name="Eng512.Engine.mk_src"),
     GK(CFG, fn="new", lean_name="Eng512.Engine.new_src", doc="`eng512::Engine::new`", **EN512),
     GK(CFG, fn="reset", lean_name="Eng512.Engine.reset_src", doc="`eng512::Engine::reset`", **EN512),
     GK(CFG, fn="blocks", lean_name="Eng512.Engine.blocks_src", doc="`eng512::Engine::blocks`", **EN512),
@@ -86,12 +94,19 @@ KERNELS = [
     GK(CFG, fn="output_384bits_at", lean_name="Eng512.Engine.output_384bits_at_src", doc="`eng512::Engine::output_384bits_at`", **EN512),
     GK(CFG, fn="output_512bits_at", lean_name="Eng512.Engine.output_512bits_at_src", doc="`eng512::Engine::output_512bits_at`", **EN512),
     # ---- sha2/mod.rs: Engine512
-    GStruct(CFG, "Engine512"),
+    GStruct(CFG, "Engine512", lean_name="Engine512.mk_src"),
     GK(CFG, fn="new", lean_name="Engine512.new_src", doc="`Engine512::new`", **M512),
     GK(CFG, fn="reset", lean_name="Engine512.reset_src", doc="`Engine512::reset`", **M512),
     GK(CFG, fn="input", lean_name="Engine512.input_src", doc="`Engine512::input`", **M512),
     GK(CFG, fn="finish", lean_name="Engine512.finish_src", doc="`Engine512::finish`", **M512),
 ]
+# ---- sha2/mod.rs: the contexts the `digest!` macro defines (public API: new / update_mut / update / reset / finalize / finalize_reset)
+for fam, alg, ctx, bits, iv in DIGESTS:
+    D = dict(file=MOD, macro="digest", macro_args=rf"{fam}\s+{alg}\s*,", scope=rf"impl {ctx} \{{", impl=ctx, untyped_array_elem="u8")
+    KERNELS.append(GStruct(CFG, ctx, lean_name=f"{ctx}.mk_src"))
+    for fn in ("new", "update_mut", "update", "reset", "finalize", "finalize_reset"):
+        KERNELS.append(GK(CFG, fn=fn, lean_name=f"{ctx}.{fn}_src", doc=f"`{ctx}::{fn}` (`digest!({fam} {alg}, …)`)", **D))
+
 
 HEADER = """import CxVerif.Util.GlueRt
 import CxVerif.Impl.Sha2
